@@ -69,6 +69,10 @@ type Desc struct {
 	ReadDelayUs int                 `json:"read_delay_us"`
 	// Repeat > 0 (silent device only): the same operation is issued Repeat more times with
 	// RepeatMs as timeout; each must end with the timeout error and run nothing.
+	// DelayText / DelayMs: the reply equal to DelayText is printed DelayMs after the line that
+	// asks for it (a device that takes its time).
+	DelayText string `json:"delay_text,omitempty"`
+	DelayMs   int    `json:"delay_ms,omitempty"`
 	// Pager > 0: the input line starts an output of Pager pages; every page but the last ends in
 	// More (or, on odd pages, in Confirm if set) and the device waits for any line before it prints
 	// the next one; the last page ends in Final. One callback execution per page.
@@ -146,6 +150,12 @@ func (v *device) Input(c *devsim.Conn, b []byte) {
 		k := v.seen[line]
 		v.seen[line]++
 		switch {
+		case ok && k < len(outs) && v.d.DelayMs > 0 && outs[k] == v.d.DelayText:
+			text, wait := outs[k], time.Duration(v.d.DelayMs)*time.Millisecond
+			go func() {
+				time.Sleep(wait)
+				c.Do(func() { c.Emit([]byte(text)) })
+			}()
 		case ok && k < len(outs):
 			c.Emit([]byte(outs[k]))
 		case ok:
@@ -815,8 +825,69 @@ func (j *judge) judge(haveResp bool, result string, opErr error) mon.Result {
 	tLoop := j.t0
 	tFinal := []int{d.TimeoutMs}
 	lastNT := 0
+	endInconclusive := ""
+	// silent runs: a callback without a function that is not complete runs unobserved; it is
+	// spent (once), resets the output and may state a next-timeout, and the dialogue goes on.
+	// advance applies the unobserved runs at the boundaries after e at which such a callback is
+	// the first holding one, up to the first boundary at which an observable callback is due.
+	// arg != nil: stop where the next observed argument ends; stopOff >= 0: stop at that offset.
+	advance := func(arg *string, stopOff int, end bool) *mon.Result {
+		for k := e + 1; k <= n; k++ {
+			if arg != nil {
+				if off := j.cum[a] + len(*arg); off <= j.cum[k] && j.full[j.cum[a]:off] == *arg {
+					return nil // the observed firing is at or before this boundary (with the current reset point)
+				}
+			}
+			if stopOff >= 0 && j.cum[k] >= stopOff {
+				return nil
+			}
+			if end && j.readT[k-1].After(j.tEnd) {
+				return nil
+			}
+			r := j.eval(a, k)
+			if r.first < 0 {
+				continue
+			}
+			sc := d.CBs[r.first]
+			if !sc.NilFunc || sc.Complete {
+				return nil
+			}
+			if sc.Once && fired[r.first] > 0 {
+				if end {
+					return nil // the once error of the operation's end is judged there
+				}
+				res := j.bad("c18/missed-once-error:"+kind(sc), "callback %d (%s), once, without function and spent, was the first holding one at boundary %d: the operation had to end with the once error there, but callbacks ran afterwards", r.first, sc.Name, k)
+				return &res
+			}
+			if end && errors.Is(opErr, util.ErrTimeoutError) && j.readT[k-1].Add(decisiveMargin).After(j.tEnd) {
+				endInconclusive = fmt.Sprintf("a callback without function became due at boundary %d only %v before the operation returned", k, j.tEnd.Sub(j.readT[k-1]))
+				return nil
+			}
+			j.noteEval(r)
+			fired[r.first]++
+			j.noteFired(sc, false)
+			j.obs["unobserved_runs_of_callbacks_without_function_that_are_not_complete"]++
+			j.tags["ran:callback-without-function-not-complete"] = true
+			j.nontrivial = true
+			a, e = k, k
+			if j.readT[k-1].After(tLoop) {
+				tLoop = j.readT[k-1] // the loop after it started no earlier than the chunk arrived
+			}
+			if sc.NextMs > 0 {
+				lastNT = sc.NextMs
+				tFinal = []int{sc.NextMs}
+			}
+		}
+		return nil
+	}
 	for fi, f := range j.firings {
 		cb := d.CBs[f.Idx]
+		if len(f.Arg) != j.cum[e]-j.cum[a] || j.full[j.cum[a]:j.cum[e]] != f.Arg {
+			arg := f.Arg
+			if r := advance(&arg, -1, false); r != nil {
+				return *r
+			}
+		}
 		target := j.cum[a] + len(f.Arg)
 		if target > len(j.full) || j.full[j.cum[a]:target] != f.Arg {
 			return j.bad("c18/argument-mismatch:"+kind(cb),
@@ -886,17 +957,25 @@ func (j *judge) judge(haveResp bool, result string, opErr error) mon.Result {
 		if cb.NextMs > 0 {
 			lastNT = cb.NextMs
 			tFinal = []int{cb.NextMs}
-		} else if lastNT > 0 {
-			// the documentation speaks of "the next read duration": whether a later loop falls
-			// back to the operation's timeout is not specified - both are accepted
-			tFinal = []int{lastNT, d.TimeoutMs}
 		}
+		// a stated next-timeout stays in force for the later read loops until another callback
+		// states one (the pinned library's behaviour, which is the reference reading)
 	}
 
 	inconclusive := ""
 	outcome := ""
 	j.outcome = ""
 	var lastFailed *firing
+	if completeAt < 0 && !(len(j.firings) > 0 && j.firings[len(j.firings)-1].err != nil) && !errors.Is(opErr, util.ErrOperationError) {
+		stop := -1
+		if opErr == nil {
+			stop = opStart + len(result)
+		}
+		if r := advance(nil, stop, true); r != nil {
+			return *r
+		}
+		inconclusive = endInconclusive
+	}
 	if nf := len(j.firings); nf > 0 && j.firings[nf-1].err != nil {
 		lastFailed = &j.firings[nf-1]
 	}
@@ -1017,9 +1096,17 @@ func (j *judge) judge(haveResp bool, result string, opErr error) mon.Result {
 			return j.bad("c18/complete-did-not-end", "a complete callback ran but the operation returned %v", opErr)
 		}
 		ok := false
+		e0 := e
 		for e2 := e; e2 <= n; e2++ {
 			r := j.eval(a, e2)
 			if r.first < 0 {
+				continue
+			}
+			if sc := d.CBs[r.first]; sc.NilFunc && !sc.Complete && e2 > e0 && !(sc.Once && fired[r.first] > 0) {
+				// an unobserved run on the way to the once error
+				fired[r.first]++
+				j.obs["unobserved_runs_of_callbacks_without_function_that_are_not_complete"]++
+				a = e2
 				continue
 			}
 			if d.CBs[r.first].Once && fired[r.first] > 0 {
@@ -1034,7 +1121,7 @@ func (j *judge) judge(haveResp bool, result string, opErr error) mon.Result {
 				}
 				break
 			}
-			if e2 > e {
+			if e2 > e0 {
 				break // a boundary after the last firing is always examined: something else would have run here
 			}
 			// e2 == e: examined only on an empty poll; it evidently was skipped
